@@ -19,7 +19,7 @@ for sid in ids:
         if r.returncode != 0:
             rows.append((sid, '-', 'PATCH DOES NOT APPLY: ' + r.stderr[:200]))
             continue
-        env = dict(os.environ, VERIF_REPO=tmp, VERIF_BUILD=os.path.join(tmp, 'build'))
+        env = dict(os.environ, VERIF_REPO=tmp, VERIF_BUILD=os.path.join(tmp, 'build'), VERIF_OUT=os.path.join(tmp, 'out'))
         for pid in props:
             p = subprocess.run([os.path.join(ROOT, 'check'), pid], cwd=ROOT, env=env, capture_output=True, text=True)
             vio = [l for l in p.stdout.split('\n') if l.startswith('VIOLATION')]
